@@ -50,6 +50,9 @@ Proof.
   - intros N. destruct (list_eqb a b) eqn:E; [|reflexivity]. apply list_eqb_spec in E. contradiction.
 Qed.
 
+Lemma andb_shuffle x s d : x && (s && (d && true)) = x && d && s.
+Proof. destruct x, s, d; reflexivity. Qed.
+
 Lemma forallb_andb {A} (f g : A -> bool) l :
   forallb (fun x => f x && g x) l = forallb f l && forallb g l.
 Proof.
@@ -278,6 +281,19 @@ Proof.
   destruct (is_dummy_pb q), (list_eqb (lf_bh q) b), (lf_asset q =? a), (lf_fee q =? f); reflexivity.
 Qed.
 
+Lemma concat_length4 (l : list (list Z)) : Forall (fun d => length d = 4%nat /\ Forall canon d) l ->
+  length (concat l) = (4 * length l)%nat.
+Proof.
+  induction 1 as [|d l [Ld _] F IH]; cbn [concat length]; [reflexivity|]. rewrite app_length, IH, Ld. lia.
+Qed.
+
+Lemma selected_nullifiers_length H leaves : forall us, length us = length leaves ->
+  length (selected_nullifiers H leaves us) = length leaves.
+Proof.
+  induction leaves as [|q r IH]; intros [|u ur] L; cbn [length] in L; cbn [length selected_nullifiers]; try lia.
+  rewrite IH by lia. reflexivity.
+Qed.
+
 (* ================================================================ the circuit *)
 Section PB.
   Variable H : list Z -> list Z.
@@ -462,19 +478,6 @@ Section PB.
     destruct (is_dummy_pb q); [apply Hwf|apply Wq].
   Qed.
 
-  Lemma selected_nullifiers_length leaves : forall us, length us = length leaves ->
-    length (selected_nullifiers H leaves us) = length leaves.
-  Proof.
-    induction leaves as [|q r IH]; intros [|u ur] L; cbn [length selected_nullifiers] in *; try lia.
-    rewrite IH by lia. reflexivity.
-  Qed.
-
-  Lemma concat_length4 (l : list (list Z)) : Forall (fun d => length d = 4%nat /\ Forall canon d) l ->
-    length (concat l) = (4 * length l)%nat.
-  Proof.
-    induction 1 as [|d l [Ld _] F IH]; cbn [concat length]; [reflexivity|]. rewrite app_length, IH, Ld. lia.
-  Qed.
-
   (* ================================================================ main theorem *)
   Section Main.
     Variables (leaves us : list (list Z)).
@@ -493,7 +496,7 @@ Section PB.
       assert (Bm : zlen (maskedChildPairs leaves) * two32 < p).
       { unfold zlen. rewrite Lm. unfold two32, p. lia. }
       pose proof (selected_nullifiers_good leaves F us) as Gs.
-      pose proof (selected_nullifiers_length leaves us Hus) as Ls.
+      pose proof (selected_nullifiers_length H leaves us Hus) as Ls.
       eapply gdet_conv.
       - unfold private_batch. cbv zeta.
         eapply gdet_dbind; [apply det_dummy_flags, F|]. cbv beta.
@@ -503,24 +506,20 @@ Section PB.
         eapply gdet_bind; [apply gdet_slots_loop; [exact Fm|exact Bm|exact Fm|constructor]|].
         eapply gdet_bind; [apply gdet_uniq, F|].
         eapply gdet_dbind; [apply det_select_nullifiers, F|].
-        eapply gdet_dbind; [apply (det_sort_digests4 H 4); [match goal with |- ?G => idtac G end; rewrite Ls; unfold NET_MAX; lia|exact Gs]|].
+        eapply gdet_dbind; [apply (det_sort_digests4 H 4); [unfold NET_MAX; apply Nat.le_trans with (length leaves); [apply Nat.eq_le_incl; exact Ls|lia]|exact Gs]|].
         apply gdet_ret.
-      - unfold priv_compat. rewrite RH. rewrite andb_true_r.
-        rewrite cons_ok_split, slots_spec_groupExits, uniq_ok_distinct.
-        destruct (forallb (fun q => lf_asset q =? lf_asset (nth 0 leaves [])) leaves),
-                 (forallb (fun q => is_dummy_pb q || (list_eqb (lf_bh q) bh && (lf_fee q =? fee))) leaves),
-                 (distinct_digests (map lf_null (filter is_real_pb leaves))),
-                 (forallb (fun s => fst s <? two32) (groupExits (maskedChildPairs leaves))); reflexivity.
+      - unfold priv_compat. rewrite RH.
+        rewrite cons_ok_split, slots_spec_groupExits, uniq_ok_distinct. apply andb_shuffle.
       - unfold priv_output. rewrite RH. cbv zeta.
         rewrite flat_map_concat_map.
         rewrite <- slots_spec_groupExits.
         set (E := concat (map flat_slot (slots_spec (maskedChildPairs leaves) [] (maskedChildPairs leaves)))).
         set (N := concat (sort_spec (selected_nullifiers H leaves us))).
         assert (LE : length E = (10 * length leaves)%nat).
-        { unfold E. rewrite slots_spec_flat_length by exact Fm. rewrite Lm. lia. }
+        { unfold E. rewrite slots_spec_flat_length by exact Fm. unfold digest in *. lia. }
         assert (LN : length N = (4 * length leaves)%nat).
         { unfold N. rewrite concat_length4.
-          - unfold sort_spec. rewrite isort_length, Ls. reflexivity.
+          - unfold sort_spec. rewrite isort_length. f_equal. exact Ls.
           - eapply Permutation_Forall; [symmetry; apply sort_spec_perm|exact Gs]. }
         assert (LB : zlen ([zlen leaves * 2; lf_asset (nth 0 leaves []); fee] ++ bh ++ [bn] ++ E ++ N)
                      = 8 + 14 * zlen leaves).
@@ -543,3 +542,1060 @@ Section PB.
     Proof. eapply gdet_refines, gdet_private_batch. Qed.
   End Main.
 End PB.
+
+(* ================================================================ pure facts about the specification *)
+
+(* ---------------- groupExits, slot by slot ---------------- *)
+Definition key_at (xs : list (list Z * Z)) (k : nat) : list Z := fst (nth k xs ([], 0)).
+
+Lemma slots_spec_nth all rest : forall earlier k d, (k < length rest)%nat ->
+  nth k (slots_spec all earlier rest) d =
+  slot_spec all (earlier ++ map fst (firstn k rest)) (fst (nth k rest ([], 0))).
+Proof.
+  induction rest as [|[e a] r IH]; intros earlier k d L; cbn [length] in L; [lia|].
+  destruct k as [|k]; cbn [slots_spec nth firstn map fst].
+  - rewrite app_nil_r. reflexivity.
+  - rewrite IH by lia. rewrite <- app_assoc. reflexivity.
+Qed.
+
+Lemma groupExits_length xs : length (groupExits xs) = length xs.
+Proof. rewrite <- slots_spec_groupExits. apply slots_spec_length. Qed.
+
+Lemma groupExits_nth xs k d : (k < length xs)%nat ->
+  nth k (groupExits xs) d = slot_spec xs (map fst (firstn k xs)) (key_at xs k).
+Proof. intros L. rewrite <- slots_spec_groupExits. rewrite slots_spec_nth by exact L. reflexivity. Qed.
+
+Lemma seen_before_firstn xs : forall k e,
+  seen_before (map fst (firstn k xs)) e = true <->
+  exists j, (j < k)%nat /\ (j < length xs)%nat /\ key_at xs j = e.
+Proof.
+  unfold seen_before, key_at.
+  induction xs as [|x r IH]; intros k e.
+  - rewrite firstn_nil. cbn [map existsb length]. split; [discriminate|]. intros (j & _ & L & _). lia.
+  - destruct k as [|k]; cbn [firstn map existsb length].
+    + split; [discriminate|]. intros (j & L & _). lia.
+    + rewrite orb_true_iff, IH, list_eqb_spec. split.
+      * intros [E|(j & L1 & L2 & E)].
+        -- exists 0%nat. cbn [nth]. split; [lia|]. split; [lia|exact E].
+        -- exists (S j). cbn [nth]. split; [lia|]. split; [lia|exact E].
+      * intros (j & L1 & L2 & E). destruct j as [|j]; cbn [nth] in E; [left; exact E|].
+        right. exists j. split; [lia|]. split; [lia|exact E].
+Qed.
+
+(* the first slot of an account carries the account's total ... *)
+Lemma groupExits_first xs k d : (k < length xs)%nat ->
+  (forall j, (j < k)%nat -> key_at xs j <> key_at xs k) ->
+  nth k (groupExits xs) d = (matchSum (key_at xs k) xs, key_at xs k).
+Proof.
+  intros L N. rewrite groupExits_nth by exact L. unfold slot_spec.
+  match goal with |- context [if ?b then _ else _] => destruct b eqn:E end; [|reflexivity].
+  apply seen_before_firstn in E. destruct E as (j & L1 & _ & E). exfalso. exact (N j L1 E).
+Qed.
+(* ... every later slot of the same account is the all-zero slot *)
+Lemma groupExits_later xs k d : (k < length xs)%nat ->
+  (exists j, (j < k)%nat /\ key_at xs j = key_at xs k) ->
+  nth k (groupExits xs) d = (0, zero4).
+Proof.
+  intros L (j & L1 & E). rewrite groupExits_nth by exact L. unfold slot_spec.
+  match goal with |- context [if ?b then _ else _] => destruct b eqn:S end; [reflexivity|].
+  exfalso. apply not_true_iff_false in S. apply S.
+  apply seen_before_firstn. exists j. split; [exact L1|]. split; [lia|exact E].
+Qed.
+
+Lemma groupExits_entry xs s k : In (s, k) (groupExits xs) ->
+  (s, k) = (0, zero4) \/ (In k (map fst xs) /\ s = matchSum k xs).
+Proof.
+  intros I. apply (In_nth _ _ (0, zero4)) in I. destruct I as (i & L & E).
+  rewrite groupExits_length in L. rewrite groupExits_nth in E by exact L. unfold slot_spec in E.
+  match type of E with context [if ?b then _ else _] => destruct b end; [left; symmetry; exact E|right].
+  inversion E; subst. split; [|reflexivity]. unfold key_at. apply in_map. apply nth_In. exact L.
+Qed.
+
+(* ---------------- conservation (port of Lean's groupAux_conserves) ---------------- *)
+Fixpoint sumUnseen (seen : list (list Z)) (xs : list (list Z * Z)) : Z :=
+  match xs with
+  | [] => 0
+  | (k, a) :: r => (if dmem k seen then 0 else a) + sumUnseen seen r
+  end.
+Fixpoint amountsTotal (xs : list (list Z * Z)) : Z :=
+  match xs with [] => 0 | (_, a) :: r => a + amountsTotal r end.
+
+Lemma dmem_cons k' k seen : dmem k' (k :: seen) = list_eqb k' k || dmem k' seen.
+Proof. reflexivity. Qed.
+Lemma sumUnseen_split k seen r : dmem k seen = false ->
+  sumUnseen seen r = matchSum k r + sumUnseen (k :: seen) r.
+Proof.
+  intros D. induction r as [|[k' a'] r IH]; cbn [sumUnseen matchSum]; [reflexivity|].
+  rewrite IH, dmem_cons. destruct (list_eqb k' k) eqn:E; cbn [orb].
+  - apply list_eqb_spec in E. subst k'. rewrite D. lia.
+  - destruct (dmem k' seen); lia.
+Qed.
+Lemma sumUnseen_seen k seen r : dmem k seen = true -> sumUnseen (k :: seen) r = sumUnseen seen r.
+Proof.
+  intros D. induction r as [|[k' a'] r IH]; cbn [sumUnseen]; [reflexivity|].
+  rewrite IH, dmem_cons. destruct (list_eqb k' k) eqn:E; cbn [orb]; [|reflexivity].
+  apply list_eqb_spec in E. subst k'. rewrite D. reflexivity.
+Qed.
+Lemma groupAux_conserves xs : forall seen, slotsTotal (groupAux seen xs) = sumUnseen seen xs.
+Proof.
+  induction xs as [|[k a] r IH]; intros seen; cbn [groupAux sumUnseen]; [reflexivity|].
+  destruct (dmem k seen) eqn:D; cbn [slotsTotal]; rewrite IH.
+  - rewrite sumUnseen_seen by exact D. reflexivity.
+  - rewrite (sumUnseen_split k seen r D). lia.
+Qed.
+Lemma sumUnseen_nil xs : sumUnseen [] xs = amountsTotal xs.
+Proof. induction xs as [|[k a] r IH]; cbn [sumUnseen amountsTotal dmem existsb]; [reflexivity|]. rewrite IH. reflexivity. Qed.
+Lemma groupExits_conserves xs : slotsTotal (groupExits xs) = amountsTotal xs.
+Proof. unfold groupExits. rewrite groupAux_conserves. apply sumUnseen_nil. Qed.
+Lemma amountsTotal_masked leaves : amountsTotal (maskedChildPairs leaves) = inputExitTotal leaves.
+Proof.
+  induction leaves as [|q r IH]; cbn [maskedChildPairs inputExitTotal]; [reflexivity|].
+  destruct (is_dummy_pb q); cbn [amountsTotal]; rewrite IH; lia.
+Qed.
+Theorem conservation leaves : slotsTotal (groupExits (maskedChildPairs leaves)) = inputExitTotal leaves.
+Proof. rewrite groupExits_conserves. apply amountsTotal_masked. Qed.
+
+Lemma inputExitTotal_bound leaves : Forall leaf_fields leaves ->
+  0 <= inputExitTotal leaves <= zlen leaves * (2 * two32 - 2).
+Proof.
+  induction 1 as [|q r Wq F IH]; cbn [inputExitTotal]; [cbn; lia|]. rewrite zlen_cons.
+  pose proof (lw_out1 q Wq). pose proof (lw_out2 q Wq). pose proof (zlen_nonneg r).
+  destruct (is_dummy_pb q); unfold two32 in *; lia.
+Qed.
+
+(* total sent to account [k] by the real children *)
+Fixpoint accountTotal (k : list Z) (leaves : list (list Z)) : Z :=
+  match leaves with
+  | [] => 0
+  | q :: r =>
+      (if is_dummy_pb q then 0
+       else (if list_eqb (lf_exit1 q) k then lf_out1 q else 0) + (if list_eqb (lf_exit2 q) k then lf_out2 q else 0))
+      + accountTotal k r
+  end.
+Lemma matchSum_masked k leaves : matchSum k (maskedChildPairs leaves) = accountTotal k leaves.
+Proof.
+  induction leaves as [|q r IH]; cbn [maskedChildPairs accountTotal]; [reflexivity|].
+  destruct (is_dummy_pb q); cbn [matchSum]; rewrite IH; [destruct (list_eqb zero4 k)|]; lia.
+Qed.
+Lemma slot_is_account_total leaves s k :
+  In (s, k) (groupExits (maskedChildPairs leaves)) -> k <> zero4 -> s = accountTotal k leaves.
+Proof.
+  intros I N. apply groupExits_entry in I. destruct I as [E|[_ E]].
+  - inversion E; subst. contradiction.
+  - rewrite E. apply matchSum_masked.
+Qed.
+
+(* a dummy child contributes nothing, whatever its amount / exit fields hold *)
+Lemma maskedChildPairs_app l1 l2 : maskedChildPairs (l1 ++ l2) = maskedChildPairs l1 ++ maskedChildPairs l2.
+Proof. induction l1 as [|q r IH]; cbn [app maskedChildPairs]; [reflexivity|]. rewrite IH. reflexivity. Qed.
+Lemma inputExitTotal_app l1 l2 : inputExitTotal (l1 ++ l2) = inputExitTotal l1 + inputExitTotal l2.
+Proof. induction l1 as [|q r IH]; cbn [app inputExitTotal]; [reflexivity|]. rewrite IH. lia. Qed.
+Lemma accountTotal_app k l1 l2 : accountTotal k (l1 ++ l2) = accountTotal k l1 + accountTotal k l2.
+Proof. induction l1 as [|q r IH]; cbn [app accountTotal]; [reflexivity|]. rewrite IH. lia. Qed.
+Lemma dummy_contributes_nothing l1 d l2 : is_dummy_pb d = true ->
+  slotsTotal (groupExits (maskedChildPairs (l1 ++ d :: l2))) = inputExitTotal (l1 ++ l2) /\
+  forall k, matchSum k (maskedChildPairs (l1 ++ d :: l2)) = matchSum k (maskedChildPairs (l1 ++ l2)).
+Proof.
+  intros D. split.
+  - rewrite conservation, !inputExitTotal_app. cbn [inputExitTotal]. rewrite D. lia.
+  - intros k. rewrite !matchSum_masked, !accountTotal_app. cbn [accountTotal]. rewrite D. lia.
+Qed.
+
+(* ---------------- decoding the public output ---------------- *)
+Lemma firstn_exact {A} (a b : list A) n : length a = n -> firstn n (a ++ b) = a.
+Proof. intros <-. rewrite firstn_app, Nat.sub_diag, firstn_all. cbn [firstn]. apply app_nil_r. Qed.
+Lemma skipn_exact {A} (a b : list A) n : length a = n -> skipn n (a ++ b) = b.
+Proof. intros <-. rewrite skipn_app, Nat.sub_diag, skipn_all. reflexivity. Qed.
+Lemma skipn_exact2 {A} (a b : list A) n m : length a = n -> skipn (n + m) (a ++ b) = skipn m b.
+Proof.
+  intros <-. rewrite skipn_app. rewrite skipn_all2 by lia.
+  replace (length a + m - length a)%nat with m by lia. reflexivity.
+Qed.
+
+Fixpoint read_slots (n : nat) (region : list Z) : list (Z * list Z) :=
+  match n with
+  | O => []
+  | S m => (nth 0 region 0, firstn 4 (skipn 1 region)) :: read_slots m (skipn 5 region)
+  end.
+(* the 2N exit slots (sum, account) read back from the public output *)
+Definition out_exit_slots (n : nat) (out : list Z) : list (Z * list Z) := read_slots (2 * n) (skipn 8 out).
+
+Lemma read_slots_step a k X n : length k = 4%nat ->
+  read_slots (S n) ((a :: k) ++ X) = (a, k) :: read_slots n X.
+Proof.
+  intros Lk. cbn [read_slots]. rewrite <- app_comm_cons. f_equal.
+  - f_equal. change (skipn 1 (a :: k ++ X)) with (k ++ X). apply firstn_exact, Lk.
+  - change (skipn 5 (a :: k ++ X)) with (skipn 4 (k ++ X)). rewrite (skipn_exact k X 4 Lk). reflexivity.
+Qed.
+
+Lemma read_slots_flat (G : list (Z * list Z)) tail : Forall (fun s => length (snd s) = 4%nat) G ->
+  read_slots (length G) (flat_map flat_slot G ++ tail) = G.
+Proof.
+  induction 1 as [|[a k] G Lk F IH]; cbn [length flat_map]; [reflexivity|].
+  cbn [snd] in Lk. change (flat_slot (a, k)) with (a :: k). rewrite <- app_assoc.
+  rewrite read_slots_step by exact Lk. rewrite IH. reflexivity.
+Qed.
+
+Lemma groupExits_shape xs : Forall slot_ok xs -> Forall (fun s => length (snd s) = 4%nat) (groupExits xs).
+Proof.
+  intros F. apply Forall_forall. intros [s k] I. cbn [snd]. apply groupExits_entry in I.
+  destruct I as [E|[I _]]; [inversion E; reflexivity|].
+  apply in_map_iff in I. destruct I as ([k' a] & E & I). cbn [fst] in E. subst k'.
+  rewrite Forall_forall in F. apply (F _ I).
+Qed.
+
+(* ---------------- the layout of the public output ---------------- *)
+Definition po_header (leaves : list (list Z)) : list Z :=
+  let '(fee, bh, bn) := ref_header leaves in
+  [2 * zlen leaves; lf_asset (nth 0 leaves []); fee] ++ bh ++ [bn].
+
+Lemma priv_output_split H leaves us :
+  priv_output H leaves us =
+  po_header leaves ++ flat_map flat_slot (groupExits (maskedChildPairs leaves))
+  ++ concat (sort_spec (selected_nullifiers H leaves us)) ++ repeat 0 (Z.to_nat (7 * zlen leaves)).
+Proof.
+  unfold priv_output, po_header. destruct (ref_header leaves) as [[fee bh] bn]. cbv zeta.
+  rewrite <- !app_assoc. reflexivity.
+Qed.
+
+Lemma po_header_length leaves : Forall leaf_fields leaves -> length (po_header leaves) = 8%nat.
+Proof.
+  intros F. unfold po_header. destruct (ref_header leaves) as [[fee bh] bn] eqn:RH.
+  destruct (ref_header_good leaves fee bh bn F RH) as ([L _] & _). rewrite !app_length, L. reflexivity.
+Qed.
+
+Lemma po_header_find leaves :
+  po_header leaves =
+  [2 * zlen leaves; lf_asset (nth 0 leaves [])] ++
+  match find is_real_pb leaves with
+  | Some q => [lf_fee q] ++ lf_bh q ++ [lf_bn q]
+  | None => [0; 0; 0; 0; 0; 0]
+  end.
+Proof. unfold po_header, ref_header. destruct (find is_real_pb leaves); reflexivity. Qed.
+
+Lemma exit_region_length leaves : Forall leaf_fields leaves ->
+  length (flat_map flat_slot (groupExits (maskedChildPairs leaves))) = (10 * length leaves)%nat.
+Proof.
+  intros F. rewrite flat_map_concat_map, <- slots_spec_groupExits.
+  rewrite slots_spec_flat_length by (apply maskedChildPairs_ok, F).
+  pose proof (maskedChildPairs_length leaves). unfold digest in *. lia.
+Qed.
+
+Section Layout.
+  Variable H : list Z -> list Z.
+  Hypothesis Hwf : forall l, length (H l) = 4%nat /\ Forall canon (H l).
+  Variables (leaves us : list (list Z)).
+  Hypothesis F : Forall leaf_fields leaves.
+  Hypothesis Hus : length us = length leaves.
+
+  Lemma null_region_length :
+    length (concat (sort_spec (selected_nullifiers H leaves us))) = (4 * length leaves)%nat.
+  Proof.
+    rewrite concat_length4.
+    - unfold sort_spec. rewrite isort_length. f_equal. apply selected_nullifiers_length, Hus.
+    - apply Forall_forall. intros d I.
+      pose proof (selected_nullifiers_good H Hwf leaves F us) as G. rewrite Forall_forall in G. apply G.
+      eapply Permutation_in; [apply sort_spec_perm|exact I].
+  Qed.
+
+  Lemma priv_output_length : length (priv_output H leaves us) = (21 * length leaves + 8)%nat.
+  Proof.
+    rewrite priv_output_split, !app_length, po_header_length, exit_region_length, null_region_length by exact F.
+    rewrite repeat_length. unfold zlen. lia.
+  Qed.
+
+  Lemma priv_output_header : firstn 8 (priv_output H leaves us) = po_header leaves.
+  Proof. rewrite priv_output_split. apply firstn_exact, po_header_length, F. Qed.
+
+  Lemma priv_output_exit_region :
+    firstn (10 * length leaves) (skipn 8 (priv_output H leaves us)) =
+    flat_map flat_slot (groupExits (maskedChildPairs leaves)).
+  Proof.
+    rewrite priv_output_split, (skipn_exact _ _ 8 (po_header_length leaves F)).
+    apply firstn_exact, exit_region_length, F.
+  Qed.
+
+  Lemma priv_output_exit_slots :
+    out_exit_slots (length leaves) (priv_output H leaves us) = groupExits (maskedChildPairs leaves).
+  Proof.
+    unfold out_exit_slots. rewrite priv_output_split, (skipn_exact _ _ 8 (po_header_length leaves F)).
+    replace (2 * length leaves)%nat with (length (groupExits (maskedChildPairs leaves))).
+    - apply read_slots_flat, groupExits_shape, maskedChildPairs_ok, F.
+    - rewrite groupExits_length. apply maskedChildPairs_length.
+  Qed.
+
+  Lemma priv_output_null_region :
+    firstn (4 * length leaves) (skipn (8 + 10 * length leaves) (priv_output H leaves us)) =
+    concat (sort_spec (selected_nullifiers H leaves us)).
+  Proof.
+    rewrite priv_output_split, (skipn_exact2 _ _ 8 _ (po_header_length leaves F)).
+    rewrite (skipn_exact _ _ _ (exit_region_length leaves F)).
+    apply firstn_exact, null_region_length.
+  Qed.
+
+  Lemma priv_output_padding :
+    skipn (8 + 14 * length leaves) (priv_output H leaves us) = repeat 0 (7 * length leaves).
+  Proof.
+    rewrite priv_output_split.
+    replace (8 + 14 * length leaves)%nat with (8 + (10 * length leaves + 4 * length leaves))%nat by lia.
+    rewrite (skipn_exact2 _ _ 8 _ (po_header_length leaves F)).
+    rewrite (skipn_exact2 _ _ _ _ (exit_region_length leaves F)).
+    rewrite (skipn_exact _ _ _ null_region_length).
+    f_equal. unfold zlen. lia.
+  Qed.
+End Layout.
+
+(* ---------------- acceptance, spelled out ---------------- *)
+Lemma distinct_digests_NoDup l : distinct_digests l = true <-> NoDup l.
+Proof.
+  induction l as [|d r IH]; cbn [distinct_digests].
+  - split; [constructor|reflexivity].
+  - rewrite andb_true_iff, negb_true_iff, IH. split.
+    + intros [N D]. constructor; [|exact D]. intros I. apply not_true_iff_false in N. apply N.
+      unfold dmem. apply existsb_exists. exists d. split; [exact I|apply list_eqb_refl].
+    + intros ND. inversion ND as [|? ? N D]; subst. split; [|exact D].
+      apply not_true_iff_false. intros E. apply N. unfold dmem in E. apply existsb_exists in E.
+      destruct E as (x & I & E). apply list_eqb_spec in E. subst x. exact I.
+Qed.
+
+Lemma seen_before_true earlier e : seen_before earlier e = true <-> In e earlier.
+Proof.
+  unfold seen_before. rewrite existsb_exists. split.
+  - intros (x & I & E). apply list_eqb_spec in E. subst x. exact I.
+  - intros I. exists e. split; [exact I|apply list_eqb_refl].
+Qed.
+
+Lemma slots_spec_sums_ok all rest : forall earlier,
+  forallb (fun s => fst s <? two32) (slots_spec all earlier rest) = true <->
+  (forall k, In k (map fst rest) -> ~ In k earlier -> matchSum k all < two32).
+Proof.
+  induction rest as [|[e a] r IH]; intros earlier; cbn [slots_spec forallb map fst].
+  - split; [intros _ k []|reflexivity].
+  - rewrite andb_true_iff, IH. unfold slot_spec. split.
+    + intros [S0 Sr] k [<-|I] N.
+      * destruct (seen_before earlier e) eqn:S; [apply seen_before_true in S; contradiction|].
+        cbn [fst] in S0. apply Z.ltb_lt, S0.
+      * destruct (list_eqb e k) eqn:E.
+        -- apply list_eqb_spec in E. subst k.
+           destruct (seen_before earlier e) eqn:S; [apply seen_before_true in S; contradiction|].
+           cbn [fst] in S0. apply Z.ltb_lt, S0.
+        -- apply Sr; [exact I|]. intros I'. apply in_app_or in I'. destruct I' as [I'|[->|[]]]; [contradiction|].
+           rewrite list_eqb_refl in E. discriminate.
+    + intros A. split.
+      * destruct (seen_before earlier e) eqn:S; cbn [fst]; [reflexivity|].
+        apply Z.ltb_lt, A; [left; reflexivity|]. intros I. apply seen_before_true in I. rewrite I in S. discriminate.
+      * intros k I N. apply A; [right; exact I|]. intros I'. apply N. apply in_or_app. left. exact I'.
+Qed.
+
+Lemma group_sums_ok xs :
+  forallb (fun s => fst s <? two32) (groupExits xs) = true <->
+  (forall e a, In (e, a) xs -> matchSum e xs < two32).
+Proof.
+  rewrite <- slots_spec_groupExits, slots_spec_sums_ok. split.
+  - intros A e a I. apply A; [|intros []]. apply in_map_iff. exists (e, a). split; [reflexivity|exact I].
+  - intros A k I _. apply in_map_iff in I. destruct I as ([e a] & E & I). cbn [fst] in E. subst e. exact (A k a I).
+Qed.
+
+(* order-independent form of the acceptance condition *)
+Definition compat_prop (leaves : list (list Z)) : Prop :=
+  (forall q q', In q leaves -> In q' leaves -> lf_asset q = lf_asset q') /\
+  (forall q q', In q leaves -> In q' leaves -> is_real_pb q = true -> is_real_pb q' = true ->
+                lf_bh q = lf_bh q' /\ lf_fee q = lf_fee q') /\
+  NoDup (map lf_null (filter is_real_pb leaves)) /\
+  (forall e a, In (e, a) (maskedChildPairs leaves) -> matchSum e (maskedChildPairs leaves) < two32).
+
+Lemma nth0_in {A} (l : list A) d x : In x l -> In (nth 0 l d) l.
+Proof. destruct l as [|y l]; [intros []|]. intros _. left. reflexivity. Qed.
+
+Lemma assets_ok_iff leaves :
+  forallb (fun q => lf_asset q =? lf_asset (nth 0 leaves [])) leaves = true <->
+  (forall q q', In q leaves -> In q' leaves -> lf_asset q = lf_asset q').
+Proof.
+  rewrite forallb_forall. split.
+  - intros A q q' I I'. apply A in I. apply A in I'. apply Z.eqb_eq in I. apply Z.eqb_eq in I'. congruence.
+  - intros A q I. apply Z.eqb_eq. apply A; [exact I|]. eapply nth0_in, I.
+Qed.
+
+Lemma refs_ok_iff leaves fee bh bn : ref_header leaves = (fee, bh, bn) ->
+  forallb (fun q => is_dummy_pb q || (list_eqb (lf_bh q) bh && (lf_fee q =? fee))) leaves = true <->
+  (forall q q', In q leaves -> In q' leaves -> is_real_pb q = true -> is_real_pb q' = true ->
+                lf_bh q = lf_bh q' /\ lf_fee q = lf_fee q').
+Proof.
+  intros RH. rewrite forallb_forall. unfold ref_header in RH. split.
+  - intros A q q' I I' R R'. apply A in I. apply A in I'. unfold is_real_pb in R, R'.
+    apply negb_true_iff in R. apply negb_true_iff in R'. rewrite R in I. rewrite R' in I'.
+    cbn [orb] in I, I'. apply andb_true_iff in I. apply andb_true_iff in I'.
+    destruct I as [I1 I2]. destruct I' as [I1' I2'].
+    apply list_eqb_spec in I1. apply list_eqb_spec in I1'. apply Z.eqb_eq in I2. apply Z.eqb_eq in I2'.
+    split; congruence.
+  - intros A q I. destruct (is_dummy_pb q) eqn:D; [reflexivity|]. cbn [orb].
+    assert (R : is_real_pb q = true) by (unfold is_real_pb; rewrite D; reflexivity).
+    destruct (find is_real_pb leaves) as [q0|] eqn:Fd.
+    + apply find_some in Fd. destruct Fd as [I0 R0]. inversion RH; subst.
+      destruct (A q q0 I I0 R R0) as [E1 E2]. rewrite E1, E2, list_eqb_refl, Z.eqb_refl. reflexivity.
+    + rewrite (find_none _ _ Fd q I) in R. discriminate.
+Qed.
+
+Theorem priv_compat_iff leaves : priv_compat leaves = true <-> compat_prop leaves.
+Proof.
+  unfold priv_compat, compat_prop. destruct (ref_header leaves) as [[fee bh] bn] eqn:RH.
+  rewrite !andb_true_iff, assets_ok_iff, (refs_ok_iff leaves fee bh bn RH), distinct_digests_NoDup, group_sums_ok.
+  tauto.
+Qed.
+
+(* ---------------- permutations of the slots ---------------- *)
+Lemma perm_filter {A} (f : A -> bool) l l' : Permutation l l' -> Permutation (filter f l) (filter f l').
+Proof.
+  induction 1 as [|x l l' P IH|x y l|l l' l'' P1 IH1 P2 IH2]; cbn [filter].
+  - constructor.
+  - destruct (f x); [apply perm_skip|]; exact IH.
+  - destruct (f x), (f y); try apply perm_swap; reflexivity.
+  - etransitivity; eassumption.
+Qed.
+
+Lemma perm_masked l l' : Permutation l l' -> Permutation (maskedChildPairs l) (maskedChildPairs l').
+Proof.
+  induction 1 as [|x l l' P IH|x y l|l l' l'' P1 IH1 P2 IH2]; cbn [maskedChildPairs].
+  - constructor.
+  - apply perm_skip, perm_skip, IH.
+  - set (r := maskedChildPairs l).
+    set (x1 := if is_dummy_pb x then (zero4, 0) else (lf_exit1 x, lf_out1 x)).
+    set (x2 := if is_dummy_pb x then (zero4, 0) else (lf_exit2 x, lf_out2 x)).
+    set (y1 := if is_dummy_pb y then (zero4, 0) else (lf_exit1 y, lf_out1 y)).
+    set (y2 := if is_dummy_pb y then (zero4, 0) else (lf_exit2 y, lf_out2 y)).
+    change (Permutation ([y1; y2] ++ [x1; x2] ++ r) ([x1; x2] ++ [y1; y2] ++ r)).
+    rewrite !app_assoc. apply Permutation_app_tail, Permutation_app_comm.
+  - etransitivity; eassumption.
+Qed.
+
+Lemma perm_matchSum k xs xs' : Permutation xs xs' -> matchSum k xs = matchSum k xs'.
+Proof.
+  induction 1 as [|[k1 a1] l l' P IH|[k1 a1] [k2 a2] l|l l' l'' P1 IH1 P2 IH2]; cbn [matchSum]; lia.
+Qed.
+
+Lemma compat_prop_perm l l' : Permutation l l' -> compat_prop l -> compat_prop l'.
+Proof.
+  intros P (A & B & C & D). assert (P' : Permutation l' l) by (symmetry; exact P).
+  split; [|split; [|split]].
+  - intros q q' I I'. apply A; eapply Permutation_in; eassumption.
+  - intros q q' I I'. apply B; eapply Permutation_in; eassumption.
+  - eapply Permutation_NoDup; [|exact C]. apply Permutation_map, perm_filter, P.
+  - intros e a I. rewrite <- (perm_matchSum e _ _ (perm_masked l l' P)).
+    apply (D e a). eapply Permutation_in; [apply perm_masked, P'|exact I].
+Qed.
+
+Theorem priv_compat_perm l l' : Permutation l l' -> priv_compat l = priv_compat l'.
+Proof.
+  intros P. apply eq_true_iff_eq. rewrite !priv_compat_iff.
+  split; apply compat_prop_perm; [exact P|symmetry; exact P].
+Qed.
+
+Lemma map_fst_combine {A B} (l : list A) : forall (l' : list B), length l' = length l -> map fst (combine l l') = l.
+Proof.
+  induction l as [|x l IH]; intros [|y l'] L; cbn [length] in L; try discriminate; cbn [combine map fst]; [reflexivity|].
+  rewrite IH by lia. reflexivity.
+Qed.
+
+Lemma perm_combine_leaves (leaves us leaves' us' : list (list Z)) :
+  length us = length leaves -> length us' = length leaves' ->
+  Permutation (combine leaves us) (combine leaves' us') -> Permutation leaves leaves'.
+Proof.
+  intros L L' P. rewrite <- (map_fst_combine leaves us L), <- (map_fst_combine leaves' us' L').
+  apply Permutation_map, P.
+Qed.
+
+Theorem priv_compat_order_irrelevant (leaves us leaves' us' : list (list Z)) :
+  length us = length leaves -> length us' = length leaves' ->
+  Permutation (combine leaves us) (combine leaves' us') -> priv_compat leaves = priv_compat leaves'.
+Proof. intros L L' P. apply priv_compat_perm. exact (perm_combine_leaves _ _ _ _ L L' P). Qed.
+
+(* ---------------- permuting the slots: nullifier region ---------------- *)
+Definition sel_of (H : list Z -> list Z) (qu : list Z * list Z) : list Z :=
+  if is_dummy_pb (fst qu) then dummyNull H (snd qu) else lf_null (fst qu).
+
+Lemma selected_nullifiers_map H leaves : forall us,
+  selected_nullifiers H leaves us = map (sel_of H) (combine leaves us).
+Proof.
+  induction leaves as [|q r IH]; intros [|u ur]; cbn [selected_nullifiers combine map]; try reflexivity.
+  rewrite IH. reflexivity.
+Qed.
+
+Lemma sort_spec_perm_eq a b : Permutation a b -> sort_spec a = sort_spec b.
+Proof.
+  intros P. apply sort_spec_unique; [|apply sort_spec_sorted].
+  etransitivity; [apply sort_spec_perm|exact P].
+Qed.
+
+Theorem perm_nullifiers H (leaves us leaves' us' : list (list Z)) :
+  Permutation (combine leaves us) (combine leaves' us') ->
+  concat (sort_spec (selected_nullifiers H leaves us)) = concat (sort_spec (selected_nullifiers H leaves' us')).
+Proof.
+  intros P. f_equal. apply sort_spec_perm_eq. rewrite !selected_nullifiers_map. apply Permutation_map, P.
+Qed.
+
+(* ---------------- permuting the slots: header ---------------- *)
+Definition bn_determined (leaves : list (list Z)) : Prop :=
+  forall q q', In q leaves -> In q' leaves -> is_real_pb q = true -> is_real_pb q' = true ->
+               lf_bh q = lf_bh q' -> lf_bn q = lf_bn q'.
+
+Lemma perm_ref_header l l' fee bh bn fee' bh' bn' : Permutation l l' -> compat_prop l ->
+  ref_header l = (fee, bh, bn) -> ref_header l' = (fee', bh', bn') ->
+  fee = fee' /\ bh = bh' /\ (bn_determined l -> bn = bn').
+Proof.
+  intros P (_ & B & _ & _) R R'. unfold ref_header in R, R'.
+  destruct (find is_real_pb l) as [q|] eqn:Fq; destruct (find is_real_pb l') as [q'|] eqn:Fq'.
+  - apply find_some in Fq. apply find_some in Fq'. destruct Fq as [I Rq]. destruct Fq' as [I' Rq'].
+    apply (Permutation_in _ (Permutation_sym P)) in I'.
+    destruct (B q q' I I' Rq Rq') as [E1 E2]. inversion R; inversion R'; subst.
+    split; [exact E2|]. split; [exact E1|]. intros D. exact (D q q' I I' Rq Rq' E1).
+  - apply find_some in Fq. destruct Fq as [I Rq]. apply (Permutation_in _ P) in I.
+    rewrite (find_none _ _ Fq' q I) in Rq. discriminate.
+  - apply find_some in Fq'. destruct Fq' as [I' Rq']. apply (Permutation_in _ (Permutation_sym P)) in I'.
+    rewrite (find_none _ _ Fq q' I') in Rq'. discriminate.
+  - inversion R; inversion R'; subst. split; [reflexivity|]. split; reflexivity.
+Qed.
+
+Lemma perm_asset0 l l' : Permutation l l' -> compat_prop l ->
+  lf_asset (nth 0 l []) = lf_asset (nth 0 l' []).
+Proof.
+  intros P (A & _). destruct l as [|x l].
+  - apply Permutation_nil in P. subst l'. reflexivity.
+  - destruct l' as [|x' l']; [apply Permutation_sym, Permutation_nil in P; discriminate|].
+    cbn [nth]. apply A; [left; reflexivity|]. apply (Permutation_in _ (Permutation_sym P)). left. reflexivity.
+Qed.
+
+Lemma perm_po_header l l' : Permutation l l' -> priv_compat l = true ->
+  Forall leaf_fields l ->
+  firstn 7 (po_header l) = firstn 7 (po_header l') /\ (bn_determined l -> po_header l = po_header l').
+Proof.
+  intros P C F. apply priv_compat_iff in C.
+  assert (F' : Forall leaf_fields l') by (eapply Permutation_Forall; [exact P|exact F]).
+  unfold po_header.
+  destruct (ref_header l) as [[fee bh] bn] eqn:R. destruct (ref_header l') as [[fee' bh'] bn'] eqn:R'.
+  destruct (perm_ref_header l l' _ _ _ _ _ _ P C R R') as (E1 & E2 & E3). subst fee' bh'.
+  destruct (ref_header_good l fee bh bn F R) as ([Lb _] & _).
+  rewrite (perm_asset0 l l' P C). unfold zlen. rewrite (Permutation_length P). split.
+  - destruct bh as [|b0 [|b1 [|b2 [|b3 [|? ?]]]]]; try discriminate Lb. reflexivity.
+  - intros D. rewrite (E3 D). reflexivity.
+Qed.
+
+(* ---------------- permuting the slots: exit slots ---------------- *)
+Definition is_zero_slot (s : Z * list Z) : bool := (fst s =? 0) && list_eqb (snd s) zero4.
+Definition nonzero_slot (s : Z * list Z) : bool := negb (is_zero_slot s).
+
+Fixpoint first_keys (earlier : list (list Z)) (rest : list (list Z * Z)) : list (list Z) :=
+  match rest with
+  | [] => []
+  | (e, _) :: r =>
+      if seen_before earlier e then first_keys (earlier ++ [e]) r else e :: first_keys (earlier ++ [e]) r
+  end.
+
+Lemma slots_spec_nonzero all rest : forall earlier,
+  filter nonzero_slot (slots_spec all earlier rest) =
+  filter nonzero_slot (map (fun k => (matchSum k all, k)) (first_keys earlier rest)).
+Proof.
+  induction rest as [|[e a] r IH]; intros earlier; cbn [slots_spec first_keys]; [reflexivity|].
+  unfold slot_spec. destruct (seen_before earlier e); cbn [map filter]; rewrite IH; reflexivity.
+Qed.
+
+Lemma first_keys_in rest : forall earlier k,
+  In k (first_keys earlier rest) <-> In k (map fst rest) /\ ~ In k earlier.
+Proof.
+  induction rest as [|[e a] r IH]; intros earlier k; cbn [first_keys map fst]; [cbn; tauto|].
+  assert (X : In k (first_keys (earlier ++ [e]) r) <-> In k (map fst r) /\ ~ In k earlier /\ e <> k).
+  { rewrite IH. split.
+    - intros [I N]. split; [exact I|]. split; intros I'; apply N, in_or_app; [left; exact I'|right; left; exact I'].
+    - intros (I & N1 & N2). split; [exact I|]. intros I'. apply in_app_or in I'. destruct I' as [I'|[I'|[]]]; contradiction. }
+  destruct (seen_before earlier e) eqn:S.
+  - apply seen_before_true in S. rewrite X. cbn [In]. split.
+    + intros (I & N1 & N2). tauto.
+    + intros [[E|I] N]; [subst; contradiction|]. split; [exact I|]. split; [exact N|]. intros E. subst. contradiction.
+  - assert (S' : ~ In e earlier) by (intros I; apply seen_before_true in I; rewrite I in S; discriminate).
+    cbn [In]. rewrite X. split.
+    + intros [E|(I & N1 & N2)]; [subst; tauto|tauto].
+    + intros [[E|I] N]; [left; exact E|]. destruct (list_eqb e k) eqn:E.
+      * apply list_eqb_spec in E. left. exact E.
+      * apply list_eqb_false in E. right. tauto.
+Qed.
+
+Lemma first_keys_nodup rest : forall earlier, NoDup (first_keys earlier rest).
+Proof.
+  induction rest as [|[e a] r IH]; intros earlier; cbn [first_keys]; [constructor|].
+  destruct (seen_before earlier e); [apply IH|]. constructor; [|apply IH].
+  intros I. apply first_keys_in in I. destruct I as [_ N]. apply N. apply in_or_app. right. left. reflexivity.
+Qed.
+
+Theorem perm_nonzero_slots xs xs' : Permutation xs xs' ->
+  Permutation (filter nonzero_slot (groupExits xs)) (filter nonzero_slot (groupExits xs')).
+Proof.
+  intros P. rewrite <- !slots_spec_groupExits, !slots_spec_nonzero.
+  apply perm_filter.
+  rewrite (map_ext (fun k => (matchSum k xs, k)) (fun k => (matchSum k xs', k)))
+    by (intros k; rewrite (perm_matchSum k xs xs' P); reflexivity).
+  apply Permutation_map. apply NoDup_Permutation; try apply first_keys_nodup.
+  intros k. rewrite !first_keys_in.
+  assert (Q : In k (map fst xs) <-> In k (map fst xs')).
+  { split; apply Permutation_in, Permutation_map; [exact P|symmetry; exact P]. }
+  tauto.
+Qed.
+
+Theorem perm_exit_slots l l' : Permutation l l' ->
+  Permutation (filter nonzero_slot (groupExits (maskedChildPairs l)))
+              (filter nonzero_slot (groupExits (maskedChildPairs l'))).
+Proof. intros P. apply perm_nonzero_slots, perm_masked, P. Qed.
+
+(* ---------------- which output slots are the all-zero slot ---------------- *)
+Lemma masked_nth leaves : forall i d, (i < length leaves)%nat ->
+  nth (2 * i) (maskedChildPairs leaves) d =
+    (if is_dummy_pb (nth i leaves []) then (zero4, 0) else (lf_exit1 (nth i leaves []), lf_out1 (nth i leaves []))) /\
+  nth (2 * i + 1) (maskedChildPairs leaves) d =
+    (if is_dummy_pb (nth i leaves []) then (zero4, 0) else (lf_exit2 (nth i leaves []), lf_out2 (nth i leaves []))).
+Proof.
+  induction leaves as [|q r IH]; intros i d L; cbn [length] in L; [lia|].
+  destruct i as [|i]; cbn [maskedChildPairs].
+  - split; reflexivity.
+  - replace (2 * S i)%nat with (S (S (2 * i))) by lia. replace (S (S (2 * i)) + 1)%nat with (S (S (2 * i + 1))) by lia.
+    cbn [nth]. apply IH. lia.
+Qed.
+
+Definition no_payment_to_zero_account (leaves : list (list Z)) : Prop :=
+  forall q, In q leaves -> is_real_pb q = true ->
+    (lf_exit1 q = zero4 -> lf_out1 q = 0) /\ (lf_exit2 q = zero4 -> lf_out2 q = 0).
+
+Lemma accountTotal_zero4 leaves : no_payment_to_zero_account leaves -> accountTotal zero4 leaves = 0.
+Proof.
+  induction leaves as [|q r IH]; intros N; cbn [accountTotal]; [reflexivity|].
+  rewrite IH by (intros q' I; apply N; right; exact I).
+  destruct (is_dummy_pb q) eqn:D; [reflexivity|].
+  destruct (N q (or_introl eq_refl)) as [N1 N2]; [unfold is_real_pb; rewrite D; reflexivity|].
+  destruct (list_eqb (lf_exit1 q) zero4) eqn:E1; destruct (list_eqb (lf_exit2 q) zero4) eqn:E2;
+    try (apply list_eqb_spec in E1; rewrite (N1 E1)); try (apply list_eqb_spec in E2; rewrite (N2 E2)); reflexivity.
+Qed.
+
+Theorem dummy_slots_zero leaves i j d : (i < length leaves)%nat -> is_dummy_pb (nth i leaves []) = true ->
+  no_payment_to_zero_account leaves -> (j = 2 * i \/ j = 2 * i + 1)%nat ->
+  nth j (groupExits (maskedChildPairs leaves)) d = (0, zero4).
+Proof.
+  intros L D N J.
+  assert (Lj : (j < length (maskedChildPairs leaves))%nat) by (rewrite maskedChildPairs_length; lia).
+  assert (K : key_at (maskedChildPairs leaves) j = zero4).
+  { unfold key_at. destruct (masked_nth leaves i ([], 0) L) as [E1 E2]. rewrite D in E1, E2.
+    destruct J as [-> | ->]; [exact (f_equal fst E1)|exact (f_equal fst E2)]. }
+  rewrite groupExits_nth by exact Lj. unfold slot_spec. rewrite K.
+  match goal with |- context [if ?b then _ else _] => destruct b end; [reflexivity|].
+  rewrite matchSum_masked, accountTotal_zero4 by exact N. reflexivity.
+Qed.
+
+(* ---------------- dummy slots: only the block-hash sentinel and the asset id matter ---------------- *)
+Definition same_up_to_dummy_fields (q q' : list Z) : Prop :=
+  q = q' \/ (is_dummy_pb q = true /\ is_dummy_pb q' = true /\ lf_asset q = lf_asset q').
+
+Notation sdf := (Forall2 same_up_to_dummy_fields).
+
+Lemma sdf_length l l' : sdf l l' -> length l = length l'.
+Proof. induction 1 as [|q q' r r' _ _ IH]; cbn [length]; [reflexivity|rewrite IH; reflexivity]. Qed.
+Lemma sdf_asset0 l l' : sdf l l' -> lf_asset (nth 0 l []) = lf_asset (nth 0 l' []).
+Proof. intros R. destruct R as [|q q' r r' [->|(_ & _ & E)] _]; cbn [nth]; congruence. Qed.
+Lemma sdf_find l l' : sdf l l' -> find is_real_pb l = find is_real_pb l'.
+Proof.
+  induction 1 as [|q q' r r' [->|(D & D' & _)] _ IH]; cbn [find]; [reflexivity|rewrite IH; reflexivity|].
+  unfold is_real_pb. rewrite D, D'. cbn [negb]. exact IH.
+Qed.
+Lemma sdf_ref_header l l' : sdf l l' -> ref_header l = ref_header l'.
+Proof. intros R. unfold ref_header. rewrite (sdf_find l l' R). reflexivity. Qed.
+Lemma sdf_masked l l' : sdf l l' -> maskedChildPairs l = maskedChildPairs l'.
+Proof.
+  induction 1 as [|q q' r r' [->|(D & D' & _)] _ IH]; cbn [maskedChildPairs]; [reflexivity|rewrite IH; reflexivity|].
+  rewrite D, D', IH. reflexivity.
+Qed.
+Lemma sdf_selected H l l' : sdf l l' -> forall us, selected_nullifiers H l us = selected_nullifiers H l' us.
+Proof.
+  induction 1 as [|q q' r r' [->|(D & D' & _)] _ IH]; intros [|u ur]; cbn [selected_nullifiers]; try reflexivity.
+  - rewrite IH. reflexivity.
+  - rewrite D, D', IH. reflexivity.
+Qed.
+Lemma sdf_assets a l l' : sdf l l' ->
+  forallb (fun q => lf_asset q =? a) l = forallb (fun q => lf_asset q =? a) l'.
+Proof.
+  induction 1 as [|q q' r r' [->|(_ & _ & E)] _ IH]; cbn [forallb]; [reflexivity|rewrite IH; reflexivity|].
+  rewrite E, IH. reflexivity.
+Qed.
+Lemma sdf_refs bh fee l l' : sdf l l' ->
+  forallb (fun q => is_dummy_pb q || (list_eqb (lf_bh q) bh && (lf_fee q =? fee))) l =
+  forallb (fun q => is_dummy_pb q || (list_eqb (lf_bh q) bh && (lf_fee q =? fee))) l'.
+Proof.
+  induction 1 as [|q q' r r' [->|(D & D' & _)] _ IH]; cbn [forallb]; [reflexivity|rewrite IH; reflexivity|].
+  rewrite D, D', IH. reflexivity.
+Qed.
+Lemma sdf_real l l' : sdf l l' -> filter is_real_pb l = filter is_real_pb l'.
+Proof.
+  induction 1 as [|q q' r r' [->|(D & D' & _)] _ IH]; cbn [filter]; [reflexivity|rewrite IH; reflexivity|].
+  assert (E : is_real_pb q = false) by (unfold is_real_pb; rewrite D; reflexivity).
+  assert (E' : is_real_pb q' = false) by (unfold is_real_pb; rewrite D'; reflexivity).
+  rewrite E, E'. exact IH.
+Qed.
+
+Theorem dummy_noninterference_output H l l' us : sdf l l' -> priv_output H l us = priv_output H l' us.
+Proof.
+  intros R. unfold priv_output.
+  rewrite (sdf_ref_header l l' R), (sdf_masked l l' R), (sdf_selected H l l' R), (sdf_asset0 l l' R).
+  unfold zlen. rewrite (sdf_length l l' R). reflexivity.
+Qed.
+Theorem dummy_noninterference_compat l l' : sdf l l' -> priv_compat l = priv_compat l'.
+Proof.
+  intros R. unfold priv_compat.
+  rewrite (sdf_ref_header l l' R), (sdf_masked l l' R), (sdf_real l l' R), (sdf_asset0 l l' R).
+  destruct (ref_header l') as [[fee bh] bn]. rewrite (sdf_assets _ l l' R), (sdf_refs bh fee l l' R). reflexivity.
+Qed.
+
+Lemma Forall2_sdf_refl l : Forall2 same_up_to_dummy_fields l l.
+Proof. induction l; constructor; [left; reflexivity|assumption]. Qed.
+
+Theorem dummy_fields_irrelevant l1 d d' l2 :
+  is_dummy_pb d = true -> is_dummy_pb d' = true -> lf_asset d = lf_asset d' ->
+  priv_compat (l1 ++ d :: l2) = priv_compat (l1 ++ d' :: l2) /\
+  forall H us, priv_output H (l1 ++ d :: l2) us = priv_output H (l1 ++ d' :: l2) us.
+Proof.
+  intros D D' E.
+  assert (R : Forall2 same_up_to_dummy_fields (l1 ++ d :: l2) (l1 ++ d' :: l2)).
+  { apply Forall2_app; [apply Forall2_sdf_refl|]. constructor; [right; tauto|apply Forall2_sdf_refl]. }
+  split; [apply dummy_noninterference_compat, R|]. intros H us. apply dummy_noninterference_output, R.
+Qed.
+
+(* ---------------- the acceptance condition in plain words ---------------- *)
+Lemma is_real_pb_iff q : is_real_pb q = true <-> lf_bh q <> zero4.
+Proof. unfold is_real_pb, is_dummy_pb. rewrite negb_true_iff. apply list_eqb_false. Qed.
+
+Theorem compat_spelled_out leaves :
+  priv_compat leaves = true <->
+  (* one asset over all slots (dummies included) *)
+  Forall (fun q => lf_asset q = lf_asset (nth 0 leaves [])) leaves /\
+  (* the real slots (non-zero block hash) share one block hash and one fee *)
+  (forall q q', In q leaves -> In q' leaves -> lf_bh q <> zero4 -> lf_bh q' <> zero4 ->
+                lf_bh q = lf_bh q' /\ lf_fee q = lf_fee q') /\
+  (* the nullifiers of the real slots are pairwise distinct *)
+  NoDup (map lf_null (filter is_real_pb leaves)) /\
+  (* every exit account receives less than 2^32 in total *)
+  (forall e a, In (e, a) (maskedChildPairs leaves) -> matchSum e (maskedChildPairs leaves) < two32).
+Proof.
+  rewrite priv_compat_iff. unfold compat_prop. rewrite Forall_forall. split.
+  - intros (A & B & C & D). split; [|split; [|split; [exact C|exact D]]].
+    + intros q I. apply A; [exact I|]. eapply nth0_in, I.
+    + intros q q' I I' N N'. apply B; try assumption; apply is_real_pb_iff; assumption.
+  - intros (A & B & C & D). split; [|split; [|split; [exact C|exact D]]].
+    + intros q q' I I'. rewrite (A q I), (A q' I'). reflexivity.
+    + intros q q' I I' N N'. apply B; try assumption; apply is_real_pb_iff; assumption.
+Qed.
+
+(* ================================================================ consequences for every satisfying witness *)
+Section Consequences.
+  Variable H : list Z -> list Z.
+  Hypothesis Hwf : forall l, length (H l) = 4%nat /\ Forall canon (H l).
+  Variables (leaves us : list (list Z)).
+  Hypothesis Hn : (1 <= length leaves <= 64)%nat.
+  Hypothesis Hleaves : Forall leaf_wf leaves.
+  Hypothesis Hus : length us = length leaves.
+
+  Theorem private_batch_output post :
+    rel H (private_batch leaves us) post -> post (priv_output H leaves us).
+  Proof. intros R. apply (private_batch_spec H Hwf leaves us Hn Hleaves Hus) in R. apply R. Qed.
+
+  Theorem private_batch_output_eq out :
+    rel H (private_batch leaves us) (fun o => o = out) -> out = priv_output H leaves us.
+  Proof. intros R. symmetry. exact (private_batch_output _ R). Qed.
+
+  Theorem private_batch_accept_iff :
+    (exists out, rel H (private_batch leaves us) (fun o => o = out)) <-> priv_compat leaves = true.
+  Proof.
+    split.
+    - intros [out R]. apply (private_batch_spec H Hwf leaves us Hn Hleaves Hus) in R. apply R.
+    - intros C. exists (priv_output H leaves us).
+      apply (private_batch_spec H Hwf leaves us Hn Hleaves Hus). split; [exact C|reflexivity].
+  Qed.
+
+  Theorem private_batch_unique_output a b :
+    rel H (private_batch leaves us) (fun o => o = a) -> rel H (private_batch leaves us) (fun o => o = b) -> a = b.
+  Proof. apply refines_unique. exact (refines_private_batch H Hwf leaves us Hn Hleaves Hus). Qed.
+
+  Theorem private_batch_honest_fails_all_fail :
+    hon H (private_batch leaves us) = None -> forall post, ~ rel H (private_batch leaves us) post.
+  Proof. apply refines_honest_fails. exact (refines_private_batch H Hwf leaves us Hn Hleaves Hus). Qed.
+
+  Theorem circuit_conservation out : rel H (private_batch leaves us) (fun o => o = out) ->
+    slotsTotal (out_exit_slots (length leaves) out) = inputExitTotal leaves /\
+    0 <= inputExitTotal leaves < 2 ^ 39.
+  Proof.
+    intros R. rewrite (private_batch_output_eq out R).
+    pose proof (leaf_wf_fields_all leaves Hleaves) as F.
+    rewrite (priv_output_exit_slots H leaves us F). split; [apply conservation|].
+    pose proof (inputExitTotal_bound leaves F) as B. change (2 ^ 39) with 549755813888.
+    unfold zlen, two32 in B. lia.
+  Qed.
+
+  Theorem circuit_slot_is_account_total out s k : rel H (private_batch leaves us) (fun o => o = out) ->
+    In (s, k) (out_exit_slots (length leaves) out) -> k <> zero4 -> s = accountTotal k leaves.
+  Proof.
+    intros R. rewrite (private_batch_output_eq out R).
+    rewrite (priv_output_exit_slots H leaves us (leaf_wf_fields_all leaves Hleaves)).
+    apply slot_is_account_total.
+  Qed.
+End Consequences.
+
+(* ---------------- permuted batches: header of the public output ---------------- *)
+Section PermHeader.
+  Variable H : list Z -> list Z.
+  Variables (leaves us leaves' us' : list (list Z)).
+  Hypothesis Hleaves : Forall leaf_wf leaves.
+  Hypothesis Hus : length us = length leaves.
+  Hypothesis Hus' : length us' = length leaves'.
+  Hypothesis Hperm : Permutation (combine leaves us) (combine leaves' us').
+  Hypothesis Hcompat : priv_compat leaves = true.
+
+  Let P : Permutation leaves leaves' := perm_combine_leaves leaves us leaves' us' Hus Hus' Hperm.
+  Let F : Forall leaf_fields leaves := leaf_wf_fields_all leaves Hleaves.
+  Let F' : Forall leaf_fields leaves' := Permutation_Forall P F.
+
+  Theorem perm_header_without_number :
+    firstn 7 (priv_output H leaves us) = firstn 7 (priv_output H leaves' us').
+  Proof.
+    replace 7%nat with (Nat.min 7 8) by reflexivity. rewrite <- !firstn_firstn.
+    rewrite (priv_output_header H leaves us F), (priv_output_header H leaves' us' F').
+    apply (perm_po_header leaves leaves' P Hcompat F).
+  Qed.
+
+  Theorem perm_header : bn_determined leaves ->
+    firstn 8 (priv_output H leaves us) = firstn 8 (priv_output H leaves' us').
+  Proof.
+    intros D. rewrite (priv_output_header H leaves us F), (priv_output_header H leaves' us' F').
+    apply (perm_po_header leaves leaves' P Hcompat F), D.
+  Qed.
+
+  Theorem perm_compat : priv_compat leaves' = true.
+  Proof. rewrite <- (priv_compat_perm leaves leaves' P). exact Hcompat. Qed.
+End PermHeader.
+
+(* ================================================================ concrete instances (non-vacuity, refutations) *)
+Definition leaf_wfb (q : list Z) : bool :=
+  (length q =? 21)%nat && forallb is_canon q && (lf_out1 q <? two32) && (lf_out2 q <? two32).
+Lemma leaf_wfb_ok q : leaf_wfb q = true -> leaf_wf q.
+Proof.
+  unfold leaf_wfb, leaf_wf. rewrite !andb_true_iff, Nat.eqb_eq, !Z.ltb_lt, forallb_forall, Forall_forall.
+  intros [[[L C] O1] O2]. split; [exact L|]. split; [|split; assumption].
+  intros x I. apply is_canon_spec, C, I.
+Qed.
+Lemma leaves_wfb_ok l : forallb leaf_wfb l = true -> Forall leaf_wf l.
+Proof. rewrite forallb_forall, Forall_forall. intros A q I. apply leaf_wfb_ok, A, I. Qed.
+
+Definition H0 (l : list Z) : list Z := [1 + (fold_left Z.add l 0) mod 1000; 2; 3; 4].
+Lemma H0_wf : forall l, length (H0 l) = 4%nat /\ Forall canon (H0 l).
+Proof.
+  intros l. split; [reflexivity|]. unfold H0.
+  pose proof (Z.mod_pos_bound (fold_left Z.add l 0) 1000 ltac:(lia)).
+  repeat (constructor; [unfold canon, p; lia|]). constructor.
+Qed.
+
+(*                              asset out1 out2 fee  nullifier      exit 1          exit 2          block hash      number *)
+Definition ex_real1 : list Z := [0; 10; 20; 5;  11; 12; 13; 14;  21; 22; 23; 24;  31; 32; 33; 34;  41; 42; 43; 44;  7].
+Definition ex_dummy : list Z := [0; 99; 98; 3;  1; 1; 1; 1;      9; 9; 9; 9;      8; 8; 8; 8;      0; 0; 0; 0;      0].
+Definition ex_real2 : list Z := [0; 30; 40; 5;  15; 16; 17; 18;  21; 22; 23; 24;  51; 52; 53; 54;  41; 42; 43; 44;  7].
+(* same block hash as ex_real1, another block number *)
+Definition ex_real3 : list Z := [0; 30; 40; 5;  15; 16; 17; 18;  21; 22; 23; 24;  51; 52; 53; 54;  41; 42; 43; 44;  8].
+(* pays 5 to the all-zero account *)
+Definition ex_real4 : list Z := [0; 5; 6; 5;    15; 16; 17; 18;  0; 0; 0; 0;      51; 52; 53; 54;  41; 42; 43; 44;  7].
+Definition ex_leaves : list (list Z) := [ex_real1; ex_dummy; ex_real2].
+Definition ex_us : list (list Z) := [[1; 1; 1; 1]; [2; 2; 2; 2]; [3; 3; 3; 3]].
+
+Lemma ex_leaves_wf : Forall leaf_wf ex_leaves.
+Proof. apply leaves_wfb_ok. vm_compute. reflexivity. Qed.
+Lemma ex_compat : priv_compat ex_leaves = true.
+Proof. vm_compute. reflexivity. Qed.
+Lemma ex_hon : hon H0 (private_batch ex_leaves ex_us) = Some (priv_output H0 ex_leaves ex_us).
+Proof. vm_compute. reflexivity. Qed.
+Lemma ex_output_slots :
+  groupExits (maskedChildPairs ex_leaves) =
+  [(40, [21; 22; 23; 24]); (20, [31; 32; 33; 34]); (0, zero4); (0, zero4); (0, zero4); (40, [51; 52; 53; 54])].
+Proof. vm_compute. reflexivity. Qed.
+
+(* without "equal block hashes have equal block numbers" the header's block number depends on the slot order *)
+Theorem perm_block_number_refuted :
+  exists H leaves us leaves' us',
+    (forall l, length (H l) = 4%nat /\ Forall canon (H l)) /\
+    Forall leaf_wf leaves /\ length us = length leaves /\ length us' = length leaves' /\
+    Permutation (combine leaves us) (combine leaves' us') /\ priv_compat leaves = true /\
+    firstn 8 (priv_output H leaves us) <> firstn 8 (priv_output H leaves' us').
+Proof.
+  exists H0, [ex_real1; ex_real3], [[1; 1; 1; 1]; [2; 2; 2; 2]], [ex_real3; ex_real1], [[2; 2; 2; 2]; [1; 1; 1; 1]].
+  split; [exact H0_wf|]. split; [apply leaves_wfb_ok; vm_compute; reflexivity|].
+  split; [reflexivity|]. split; [reflexivity|]. split; [cbn [combine]; apply perm_swap|].
+  split; [vm_compute; reflexivity|]. vm_compute. discriminate.
+Qed.
+
+(* a dummy child's output slot is NOT always the all-zero slot: it is the first slot of the all-zero
+   account, and shows whatever real children pay to that account *)
+Theorem dummy_slot_zero_refuted :
+  exists leaves, Forall leaf_wf leaves /\ priv_compat leaves = true /\
+    is_dummy_pb (nth 0 leaves []) = true /\
+    nth 0 (groupExits (maskedChildPairs leaves)) (0, zero4) = (5, zero4).
+Proof.
+  exists [ex_dummy; ex_real4]. split; [apply leaves_wfb_ok; vm_compute; reflexivity|].
+  split; [vm_compute; reflexivity|]. split; vm_compute; reflexivity.
+Qed.
+
+(* ================================================================ statements over [leaf_wf] for Properties/C06-C09 *)
+Section Statements.
+  Variable H : list Z -> list Z.
+  Hypothesis Hwf : forall l, length (H l) = 4%nat /\ Forall canon (H l).
+
+  Section One.
+    Variables (leaves us : list (list Z)).
+    Hypothesis Hleaves : Forall leaf_wf leaves.
+    Hypothesis Hus : length us = length leaves.
+    Let F : Forall leaf_fields leaves := leaf_wf_fields_all leaves Hleaves.
+
+    Theorem output_length : length (priv_output H leaves us) = (21 * length leaves + 8)%nat.
+    Proof. exact (priv_output_length H Hwf leaves us F Hus). Qed.
+
+    Theorem output_header :
+      firstn 8 (priv_output H leaves us) =
+      [2 * zlen leaves; lf_asset (nth 0 leaves [])] ++
+      match find is_real_pb leaves with
+      | Some q => [lf_fee q] ++ lf_bh q ++ [lf_bn q]
+      | None => [0; 0; 0; 0; 0; 0]
+      end.
+    Proof. rewrite (priv_output_header H leaves us F). apply po_header_find. Qed.
+
+    Theorem output_exit_region :
+      firstn (10 * length leaves) (skipn 8 (priv_output H leaves us)) =
+      flat_map flat_slot (groupExits (maskedChildPairs leaves)).
+    Proof. exact (priv_output_exit_region H leaves us F). Qed.
+
+    Theorem output_exit_slots :
+      out_exit_slots (length leaves) (priv_output H leaves us) = groupExits (maskedChildPairs leaves).
+    Proof. exact (priv_output_exit_slots H leaves us F). Qed.
+
+    Theorem output_nullifier_region :
+      firstn (4 * length leaves) (skipn (8 + 10 * length leaves) (priv_output H leaves us)) =
+        concat (sort_spec (selected_nullifiers H leaves us)) /\
+      StronglySorted digest_le (sort_spec (selected_nullifiers H leaves us)) /\
+      Permutation (sort_spec (selected_nullifiers H leaves us)) (selected_nullifiers H leaves us).
+    Proof.
+      split; [exact (priv_output_null_region H Hwf leaves us F Hus)|].
+      split; [apply sort_spec_sorted|apply sort_spec_perm].
+    Qed.
+
+    Theorem output_padding :
+      skipn (8 + 14 * length leaves) (priv_output H leaves us) = repeat 0 (7 * length leaves).
+    Proof. exact (priv_output_padding H Hwf leaves us F Hus). Qed.
+
+    Theorem output_dummy_slots_zero i j : (i < length leaves)%nat -> is_dummy_pb (nth i leaves []) = true ->
+      no_payment_to_zero_account leaves -> (j = 2 * i \/ j = 2 * i + 1)%nat ->
+      nth j (out_exit_slots (length leaves) (priv_output H leaves us)) (0, zero4) = (0, zero4).
+    Proof. rewrite output_exit_slots. apply dummy_slots_zero. Qed.
+
+    Theorem output_duplicate_slots_zero k : (k < 2 * length leaves)%nat ->
+      (exists j, (j < k)%nat /\ key_at (maskedChildPairs leaves) j = key_at (maskedChildPairs leaves) k) ->
+      nth k (out_exit_slots (length leaves) (priv_output H leaves us)) (0, zero4) = (0, zero4).
+    Proof.
+      intros L. rewrite output_exit_slots. apply groupExits_later.
+      rewrite maskedChildPairs_length. exact L.
+    Qed.
+  End One.
+
+  Section Two.
+    Variables (leaves us leaves' us' : list (list Z)).
+    Hypothesis Hleaves : Forall leaf_wf leaves.
+    Hypothesis Hus : length us = length leaves.
+    Hypothesis Hus' : length us' = length leaves'.
+    Hypothesis Hperm : Permutation (combine leaves us) (combine leaves' us').
+    Let P : Permutation leaves leaves' := perm_combine_leaves leaves us leaves' us' Hus Hus' Hperm.
+    Let Hleaves' : Forall leaf_wf leaves' := Permutation_Forall P Hleaves.
+
+    Theorem perm_output_nullifiers :
+      firstn (4 * length leaves) (skipn (8 + 10 * length leaves) (priv_output H leaves us)) =
+      firstn (4 * length leaves') (skipn (8 + 10 * length leaves') (priv_output H leaves' us')).
+    Proof.
+      rewrite (proj1 (output_nullifier_region leaves us Hleaves Hus)).
+      rewrite (proj1 (output_nullifier_region leaves' us' Hleaves' Hus')).
+      apply perm_nullifiers, Hperm.
+    Qed.
+
+    Theorem perm_output_exit_slots :
+      Permutation
+        (filter nonzero_slot (out_exit_slots (length leaves) (priv_output H leaves us)))
+        (filter nonzero_slot (out_exit_slots (length leaves') (priv_output H leaves' us'))).
+    Proof.
+      rewrite (output_exit_slots leaves us Hleaves), (output_exit_slots leaves' us' Hleaves').
+      apply perm_exit_slots, P.
+    Qed.
+  End Two.
+End Statements.
+
+Lemma ex_len : (1 <= length ex_leaves <= 64)%nat.
+Proof. cbn [ex_leaves length]. lia. Qed.
+Lemma ex_bn_determined : bn_determined ex_leaves.
+Proof.
+  intros q q' I I' R R' _. cbn [ex_leaves In] in I, I'.
+  destruct I as [<-|[<-|[<-|[]]]]; destruct I' as [<-|[<-|[<-|[]]]]; try reflexivity; discriminate.
+Qed.
+Lemma ex_no_zero_payment : no_payment_to_zero_account ex_leaves.
+Proof.
+  intros q I R. cbn [ex_leaves In] in I.
+  destruct I as [<-|[<-|[<-|[]]]]; try discriminate R; split; intros E; discriminate E.
+Qed.
+Lemma ex_reversed :
+  Permutation (combine ex_leaves ex_us) (combine (rev ex_leaves) (rev ex_us)) /\
+  firstn 8 (priv_output H0 (rev ex_leaves) (rev ex_us)) = firstn 8 (priv_output H0 ex_leaves ex_us) /\
+  skipn 38 (priv_output H0 (rev ex_leaves) (rev ex_us)) = skipn 38 (priv_output H0 ex_leaves ex_us) /\
+  out_exit_slots 3 (priv_output H0 (rev ex_leaves) (rev ex_us)) =
+    [(40, [21; 22; 23; 24]); (40, [51; 52; 53; 54]); (0, zero4); (0, zero4); (0, zero4); (20, [31; 32; 33; 34])].
+Proof.
+  split; [change (combine (rev ex_leaves) (rev ex_us)) with (rev (combine ex_leaves ex_us)); apply Permutation_rev|].
+  vm_compute. repeat split; reflexivity.
+Qed.
+
+(* ---------------- dummy non-interference without the same-asset premise ----------------
+   Under acceptance of both batches and at least one real slot the dummies' asset ids are forced to
+   the real slots' asset id; with no real slot at all the asset id shown in the header IS a dummy's. *)
+Definition same_up_to_dummy (q q' : list Z) : Prop :=
+  q = q' \/ (is_dummy_pb q = true /\ is_dummy_pb q' = true).
+
+Lemma sud_real_in l l' r : Forall2 same_up_to_dummy l l' -> In r l -> is_real_pb r = true -> In r l'.
+Proof.
+  induction 1 as [|q q' t t' S _ IH]; intros I R; [destruct I|].
+  destruct I as [->|I]; [|right; apply IH; assumption].
+  destruct S as [->|[D _]]; [left; reflexivity|]. unfold is_real_pb in R. rewrite D in R. discriminate.
+Qed.
+Lemma sud_sdf a l l' : Forall2 same_up_to_dummy l l' ->
+  Forall (fun q => lf_asset q = a) l -> Forall (fun q => lf_asset q = a) l' -> sdf l l'.
+Proof.
+  induction 1 as [|q q' t t' S _ IH]; intros A A'; [constructor|].
+  inversion A as [|? ? Aq At]; subst. inversion A' as [|? ? Aq' At']; subst.
+  constructor; [|apply IH; assumption].
+  destruct S as [->|[D D']]; [left; reflexivity|right]. split; [exact D|]. split; [exact D'|congruence].
+Qed.
+
+Theorem dummy_noninterference_under_compat H l l' us : Forall2 same_up_to_dummy l l' ->
+  priv_compat l = true -> priv_compat l' = true -> (exists r, In r l /\ is_real_pb r = true) ->
+  priv_output H l us = priv_output H l' us.
+Proof.
+  intros S C C' (r & I & R). apply dummy_noninterference_output.
+  apply compat_spelled_out in C. apply compat_spelled_out in C'. destruct C as [A _]. destruct C' as [A' _].
+  pose proof (sud_real_in l l' r S I R) as I'.
+  assert (E : lf_asset (nth 0 l []) = lf_asset (nth 0 l' [])).
+  { rewrite Forall_forall in A, A'. rewrite <- (A r I), <- (A' r I'). reflexivity. }
+  apply (sud_sdf (lf_asset (nth 0 l [])) l l' S A). rewrite E. exact A'.
+Qed.
+
+Definition ex_dummy_asset1 : list Z := [1; 0; 0; 0; 0; 0; 0; 0; 0; 0; 0; 0; 0; 0; 0; 0; 0; 0; 0; 0; 0].
+Theorem dummy_asset_shows_refuted :
+  exists H l l' us, (forall x, length (H x) = 4%nat /\ Forall canon (H x)) /\
+    Forall leaf_wf l /\ Forall leaf_wf l' /\ length us = length l /\
+    Forall2 same_up_to_dummy l l' /\ priv_compat l = true /\ priv_compat l' = true /\
+    priv_output H l us <> priv_output H l' us.
+Proof.
+  exists H0, [ex_dummy], [ex_dummy_asset1], [[1; 1; 1; 1]].
+  split; [exact H0_wf|]. split; [apply leaves_wfb_ok; vm_compute; reflexivity|].
+  split; [apply leaves_wfb_ok; vm_compute; reflexivity|]. split; [reflexivity|].
+  split; [constructor; [right; split; vm_compute; reflexivity|constructor]|].
+  split; [vm_compute; reflexivity|]. split; [vm_compute; reflexivity|]. vm_compute. discriminate.
+Qed.
